@@ -18,7 +18,7 @@ func incrementEventIndex(tx *memdb.Txn) (uint64, error) {
 
 	idx++
 	if err := tx.Insert(tableNameMetadata, meta{Key: metaKeyEventIndex, Value: idx}); err != nil {
-		return 0, nil
+		return 0, err
 	}
 	return idx, nil
 }
